@@ -264,12 +264,13 @@ def lemma_shape(rep, F, L):
         for n in walk(pm.body):
             if call_is(n, "::push") and show(n["args"][0]) in ("expressions", "rest", "group"):
                 npush += 1
-                a = unblock(n["args"][1])
-                if a.get("k") == "Adt" and a["adt"] == "parser::Expression":
-                    if a["variant"] not in PRED:
+                for a in q._value_leaves(n["args"][1]):
+                    a = unblock(a)
+                    if a.get("k") == "Adt" and a["adt"] == "parser::Expression":
+                        if a["variant"] not in PRED:
+                            bad.append(show(n)[:60])
+                    elif not (a.get("k") == "Var" and a.get("ty") == "parser::Expression"):
                         bad.append(show(n)[:60])
-                elif show(a) != "expression":
-                    bad.append(show(n)[:60])
         chk(rep, L, "L-SHAPE", not bad and npush >= 20, "L-SHAPE/identifier-members", pm.sp, "everything parse_mapping collects into a group is a predicate node", "; ".join(bad[:3]) or "%d pushes" % npush)
         exl = [s for x in walk(pm.body) if x.get("k") == "Block" for s in x["stmts"] if s["k"] == "Let" and s["pat"].get("name") == "expression" and s.get("init")]
         okv = False
@@ -604,7 +605,8 @@ def lemma_matrix(rep, F, L):
     cf = F.fn("<solver::Cache<'_> as document::Document>::find")
     if cf is not None:
         s = show(cf.body)
-        chk(rep, L, "L-MATRIX", s == "{let $i = (<T>::expect(Iterator::nth(<impl str>::chars(key), 0), \"..\") as u32); Clone::clone(Index::index(self.0, (i as usize)))}", "L-MATRIX/cache-decode", cf.sp,
+        okdec, detdec = q.cache_decode(cf)
+        chk(rep, L, "L-MATRIX", okdec, "L-MATRIX/cache-decode", cf.sp,
             "Cache::find indexes by the key's first char (inverse of char::from_u32(column index).to_string())", s[:100])
     # the Matrix node is built once, from (columns, rows)
     mats = [n for name, f in F.fns.items() if f.thir is not None and not name.startswith("<") for n in walk(f.body) if n.get("k") == "Adt" and n["adt"] == "parser::Expression" and n["variant"] == "Matrix"]
@@ -749,7 +751,7 @@ def make_rules(F, L):
                 if a is not None and cv and small(cv[0]) is not None:
                     return ("D-AHO", "p < len < 64 (len = context length, lemma L-LOCKSTEP)")
         if n.get("k") == "Binary" and n["op"] == "Shr":
-            iv = q.var_id(n["rhs"])
+            iv = q.base_var(n["rhs"], root)  # also through `let &i = item` of a normalised filter closure
             for c in ctx:
                 if c[0] == "for" and strip_ref(c[1]).get("k") == "Bind" and strip_ref(c[1])["id"] == iv:
                     end = q._range_upto(c[2], root)
